@@ -133,6 +133,8 @@ def instance_variants(fl):
     if kids:
         yield "present", {n: (CL12(1), CF12(), CL12(2)) if s == "CT" else CL12(3) for n, s in kids}
         yield "falsy", {n: (CF12(),) if s == "CT" else CF12() for n, s in kids}
+        if any(s == "CT" for _, s in kids):
+            yield "wide", {n: tuple(CL12(i) if i % 3 else CF12() for i in range(12)) if s == "CT" else CL12(3) for n, s in kids}
 
 
 def exp_props(fl, flags, sort):
